@@ -3,7 +3,7 @@ CONSTANTS LimbBits = 16  NLimbs = 4  PB = 12  MaxOps = 3  Bug = ""  Emit = TRUE
   Budgets = {2}
   Props = {"C07"}
 CONSTANT Top <- MCTop64
-CONSTANT SizesFor <- MCSizes64Q
+CONSTANT SizesFor <- MCSizes64T
 CONSTANT Frames <- MCFrames64
 INIT Init
 NEXT Next
